@@ -191,7 +191,9 @@ class FakeSock:
         a, b = Pipe(), Pipe()
         self.rx, self.tx = a, b
         srv_side = FakeSock(rx=b, tx=a, name='srv<-' + self.name)
-        S.point(('sock.connect', self.name))
+        # arrival order is an input of the session: client i connects after clients 0..i-1
+        idx = int(self.name[3:]) if self.name.startswith('cli') else 0
+        S.point(('sock.connect', self.name), lambda: len(LISTEN.pairs) == idx)
         LISTEN.pending.append(srv_side)
         LISTEN.pairs.append((self.name, a, b))
 
